@@ -2,6 +2,7 @@
    unfolding equations for plain path segments, concrete addresses, "what the filter does at an
    address its path reaches" and frame facts on the root mapping. *)
 From KV Require Import Yaml.FieldSpec.
+From KV Require Export Res.Addr.
 
 Ltac inv H := inversion H; subst; clear H.
 
@@ -171,23 +172,6 @@ Section Unfold.
 End Unfold.
 
 (* ---------- concrete addresses ---------- *)
-
-Inductive astep := AKey (k : string) | AIdx (i : nat).
-
-Fixpoint get_addr (a : list astep) (n : node) : option node :=
-  match a with
-  | [] => Some n
-  | AKey k :: a' =>
-      match n with
-      | Map kvs => match find_field k kvs with Some x => get_addr a' x | None => None end
-      | _ => None
-      end
-  | AIdx i :: a' =>
-      match n with
-      | Seq es => match nth_error es i with Some e => get_addr a' e | None => None end
-      | _ => None
-      end
-  end.
 
 (* the field spec path [path] reaches the address [a] of [n] (and calls SetValue there) *)
 Fixpoint reaches (path : list string) (a : list astep) (n : node) : bool :=
